@@ -3,15 +3,16 @@
 (*       missed                                                             *)
 EXTENDS ObsBase
 Ids == 1..16
-VARIABLES tid, l, flg, done, now, waits, bad
-vars == <<tid, l, flg, done, now, waits, bad>>
+VARIABLES tid, l, flg, done, now, waits, lvl, bad
+vars == <<tid, l, flg, done, now, waits, lvl, bad>>
 \* waits: set of [a, c] - awaits in progress;  flg / done / now mirror the atoms from the observed events
 Init == /\ tid \in 1..N /\ l = 1 /\ bad = "" /\ now = 0
-        /\ flg = [f \in 1..4 |-> FALSE] /\ done = {} /\ waits = {}
+        /\ flg = [f \in 1..4 |-> FALSE] /\ done = {} /\ waits = {} /\ lvl = [p \in 1..2 |-> 0]
 
 \* independent evaluator of condition expressions over the observed atom values
 RECURSIVE Ev(_, _, _, _)
 Ev(c, fl, dn, t) ==
+  \* (resource-level comparisons read the mirrored level `lvl`)
   CASE c[1] = "flag"  -> fl[c[2]]
     [] c[1] = "nflag" -> ~fl[c[2]]
     [] c[1] = "done"  -> c[2] \in dn
@@ -21,16 +22,25 @@ Ev(c, fl, dn, t) ==
     [] c[1] = "eq"    -> t = c[2]
     [] c[1] = "inst"  -> TRUE
     [] c[1] = "etern" -> FALSE
+    [] c[1] = "lvl"   -> lvl[c[2]] >= c[3]
     [] c[1] = "all"   -> \A i \in 1..Len(c[2]) : Ev(c[2][i], fl, dn, t)
     [] c[1] = "any"   -> \E i \in 1..Len(c[2]) : Ev(c[2][i], fl, dn, t)
     [] OTHER -> FALSE
 Nested(c) == c[1] \in {"all", "any"} /\ \E i \in 1..Len(c[2]) : c[2][i][1] \in {"all", "any"}
-CondOf(e) == IF e.op = "await_f" THEN (IF e.v THEN <<"flag", e.f>> ELSE <<"nflag", e.f>>) ELSE e.c
+CondOf(e) == IF e.op = "await_f" THEN (IF e.v THEN <<"flag", e.f>> ELSE <<"nflag", e.f>>)
+             ELSE IF e.op = "await_lvl" THEN <<"lvl", e.p, e.v>> ELSE e.c
 
 Fail(c) == bad' = c /\ UNCHANGED <<flg, done, now, waits>>
+GetL(q, i) == IF i <= Len(q) THEN q[i] ELSE 0
 Step ==
   /\ l <= Len(Traces[tid]) /\ bad = ""
   /\ l' = l + 1 /\ UNCHANGED tid
+  /\ lvl' = LET e0 == Traces[tid][l] o == F(e0, "op", "") IN
+            IF e0.e = "init" THEN [p \in 1..2 |-> GetL(e0.res, p)]
+            ELSE IF e0.e = "b" /\ o = "inc" /\ e0.p \in 1..2 THEN [lvl EXCEPT ![e0.p] = @ + e0.amt]
+            ELSE IF e0.e = "b" /\ o = "dec" /\ e0.p \in 1..2 THEN [lvl EXCEPT ![e0.p] = @ - e0.amt]
+            ELSE IF e0.e = "b" /\ o = "rset" /\ e0.p \in 1..2 THEN [lvl EXCEPT ![e0.p] = e0.amt]
+            ELSE lvl
   /\ LET e == Traces[tid][l] a == F(e, "a", 0) op == F(e, "op", "") t == F(e, "t", now)
          \* waiters whose condition holds at the END of the time step that is now over
          stuck == {w \in waits : Ev(w.c, flg, done, now)} IN
@@ -43,13 +53,13 @@ Step ==
           [] e.e = "end" ->
                \* the task is done as soon as its code has ended (awaiters are woken in the same activation)
                /\ done' = done \cup {a} /\ waits' = {w \in waits : w.a # a} /\ UNCHANGED <<flg, bad>>
-          [] e.e = "b" /\ op \in {"await_c", "await_f"} ->
+          [] e.e = "b" /\ op \in {"await_c", "await_f", "await_lvl"} ->
                waits' = waits \cup {[a |-> a, c |-> CondOf(e)]} /\ UNCHANGED <<flg, done, bad>>
-          [] e.e = "r" /\ op \in {"await_c", "await_f"} ->
+          [] e.e = "r" /\ op \in {"await_c", "await_f", "await_lvl"} ->
                LET ws == {w \in waits : w.a = a} IN
                IF \E w \in ws : ~Ev(w.c, flg, done, t) THEN Fail("C08.false_at_resume")
                ELSE waits' = waits \ ws /\ UNCHANGED <<flg, done, bad>>
-          [] e.e \in {"x", "u"} /\ op \in {"await_c", "await_f"} ->
+          [] e.e \in {"x", "u"} /\ op \in {"await_c", "await_f", "await_lvl"} ->
                waits' = {w \in waits : w.a # a} /\ UNCHANGED <<flg, done, bad>>
           [] e.e = "p" /\ op = "probe_c" ->
                IF e.v # Ev(e.c, flg, done, t) THEN Fail("C08.algebra_value")
